@@ -23,6 +23,8 @@ static void *do_alloc(size_t n, bool arr)
     if (arr) ++g_live_arr;
     return p;
 }
+// the harness's own bookkeeping (building the text it prints) is kept outside the fault window
+struct NoWindow { bool w; long f; NoWindow() : w(g_window), f(g_fail_in) { g_window = false; } ~NoWindow() { g_window = w; } };
 void *operator new(size_t n) { return do_alloc(n, false); }
 void *operator new[](size_t n) { return do_alloc(n, true); }
 void operator delete(void *p) noexcept { free(p); }
@@ -376,19 +378,19 @@ struct StrPool {
         else if (op == "setfail") {          // rvalue char_buffer with ill-formed UTF-8 under check_validity
             Block<char> d = units<char>(f[2]);
             ST::char_buffer arg(d.data(), d.size());
-            try { at(o) = std::move(arg); } catch (...) { extra = ",arg=" + hex(arg); throw; }
+            try { at(o) = std::move(arg); } catch (...) { { NoWindow nw; extra = ",arg=" + hex(arg); } throw; }
             extra = ",arg=" + hex(arg);
         }
         else if (op == "setmfail") {         // set(char_buffer &&, check_validity)
             Block<char> d = units<char>(f[2]);
             ST::char_buffer arg(d.data(), d.size());
-            try { at(o).set(std::move(arg), ST::check_validity); } catch (...) { extra = ",arg=" + hex(arg); throw; }
+            try { at(o).set(std::move(arg), ST::check_validity); } catch (...) { { NoWindow nw; extra = ",arg=" + hex(arg); } throw; }
             extra = ",arg=" + hex(arg);
         }
         else if (op == "ctorbuffail") {      // string(char_buffer &&, check_validity)
             Block<char> d = units<char>(f[2]);
             ST::char_buffer arg(d.data(), d.size());
-            try { S tmp(std::move(arg), ST::check_validity); (void)tmp; } catch (...) { extra = ",arg=" + hex(arg); throw; }
+            try { S tmp(std::move(arg), ST::check_validity); (void)tmp; } catch (...) { { NoWindow nw; extra = ",arg=" + hex(arg); } throw; }
             extra = ",arg=" + hex(arg);
         }
         else if (op == "fmtmovefail") {      // a failing format call whose argument is passed as an rvalue: the pool string itself
@@ -413,7 +415,7 @@ struct StrPool {
             try {
                 if (k == "missing") { S r = ST::format("{}{}", std::move(arg)); (void)r; }
                 else { S r = ST::format("{}{", std::move(arg)); (void)r; }
-            } catch (...) { extra = ",arg=" + hex(ST::char_buffer(arg.data(), arg.size())); throw; }
+            } catch (...) { { NoWindow nw; extra = ",arg=" + hex(ST::char_buffer(arg.data(), arg.size())); } throw; }
             extra = ",arg=" + hex(ST::char_buffer(arg.data(), arg.size()));
         }
         else if (op == "setcfail") { Block<char> d = units<char>(f[2], 1); at(o) = d.data(); }              // operator=(const char*)
@@ -435,14 +437,14 @@ struct StrPool {
                     at(o).to_buffer(result, false, ST::check_validity);
 #pragma GCC diagnostic pop
                 }
-            } catch (...) { extra = ",arg=" + hex(result); throw; }
+            } catch (...) { { NoWindow nw; extra = ",arg=" + hex(result); } throw; }
             extra = ",arg=" + hex(result);
         }
         else if (op == "tostdfail") {
             Block<char> d = units<char>(f[2]);
             std::string result(d.data(), d.size());
             try { at(o).to_std_string(result, false, false); }
-            catch (...) { extra = ",arg=" + hex(ST::char_buffer(result.data(), result.size())); throw; }
+            catch (...) { { NoWindow nw; extra = ",arg=" + hex(ST::char_buffer(result.data(), result.size())); } throw; }
             extra = ",arg=" + hex(ST::char_buffer(result.data(), result.size()));
         }
         else if (op == "hexfail") { Block<char> d = units<char>(f[2]); ST::char_buffer r = ST::hex_decode(S::from_validated(d.data(), d.size())); at(o) = r; }
